@@ -7,6 +7,7 @@ import (
 	"testing"
 
 	"github.com/go-kid/ioc/app"
+	"github.com/go-kid/ioc/component_definition"
 	"github.com/go-kid/ioc/configure"
 	"github.com/go-kid/ioc/util/framework_helper"
 	"pgregory.net/rapid"
@@ -265,9 +266,30 @@ func (p *Probe) Naming() string { return "zz-probe" }
 
 type ppBase struct{ before, after *[]int }
 
+// instRec adds the instantiation-aware callbacks (their invocation order on the probe is recorded too).
+type instRec struct {
+	pid  *int
+	inst *[]int
+	earl *[]int
+}
+
+func (r *instRec) PostProcessBeforeInstantiation(m *component_definition.Meta, n string) (any, error) {
+	return nil, nil
+}
+func (r *instRec) PostProcessAfterInstantiation(c any, n string) (bool, error) {
+	if n == "zz-probe" {
+		*r.inst = append(*r.inst, *r.pid)
+	}
+	return false, nil
+}
+func (r *instRec) PostProcessProperties(p []*component_definition.Property, c any, n string) ([]*component_definition.Property, error) {
+	return nil, nil
+}
+
 type PPPO struct {
 	PO
 	after *[]int
+	instRec
 }
 
 func (r *PPPO) Naming() string { return r.name }
@@ -287,6 +309,7 @@ func (r *PPPO) PostProcessAfterInitialization(c any, n string) (any, error) {
 type PPOO struct {
 	OO
 	after *[]int
+	instRec
 }
 
 func (r *PPOO) Naming() string { return r.name }
@@ -306,6 +329,7 @@ func (r *PPOO) PostProcessAfterInitialization(c any, n string) (any, error) {
 type PPNO struct {
 	NO
 	after *[]int
+	instRec
 }
 
 func (r *PPNO) Naming() string { return r.name }
@@ -326,17 +350,19 @@ func TestPostProcessors(t *testing.T) {
 	kit.Rec.Rule(rule)
 	rapid.Check(t, func(t *rapid.T) {
 		specs := genSpecs(t, 10)
-		var before, after []int
+		var before, after, inst []int
 		comps := make([]any, len(specs))
 		for i, s := range specs {
 			pi := pinfo{id: i, class: s.Class, ord: s.Ord, log: &before, name: fmt.Sprintf("pp%02d", i)}
+			id := i
+			ir := instRec{pid: &id, inst: &inst}
 			switch s.Class {
 			case 0:
-				comps[i] = &PPPO{PO{pi}, &after}
+				comps[i] = &PPPO{PO{pi}, &after, ir}
 			case 1:
-				comps[i] = &PPOO{OO{pi}, &after}
+				comps[i] = &PPOO{OO{pi}, &after, ir}
 			default:
-				comps[i] = &PPNO{NO{pi}, &after}
+				comps[i] = &PPNO{NO{pi}, &after, ir}
 			}
 		}
 		comps = append(comps, &Probe{})
@@ -350,6 +376,9 @@ func TestPostProcessors(t *testing.T) {
 		}
 		if err := checkSeq(specs, after); err != nil {
 			t.Fatalf("after-initialization sequence on the probe: %v", err)
+		}
+		if err := checkSeq(specs, inst); err != nil {
+			t.Fatalf("after-instantiation sequence on the probe: %v", err)
 		}
 		d, nt, labels := describe("postprocessors", specs)
 		kit.Rec.Case(d, nt, labels...)
